@@ -30,7 +30,7 @@ def exceptions : List (Name × Exception) := [
   (nm! "gcc.rateController.delayStats", .confined [nm! "gcc.rateController.onDelayStats"]),
   (nm! "gcc.rateController.init", .confined [nm! "gcc.rateController.onDelayStats"]),
   (nm! "gcc.DelayStats.", .trusted "plain value record copied between pipeline stages"),
-  (nm! "gcc.SendSideBWE.onTargetBitrateChange", .trusted "set-up time callback setter (documented: set before use)"),
+  (nm! "gcc.SendSideBWE.onTargetBitrateChange", .trusted "set-up time callback setter (by convention registered before feedback flows; registering it later races with onDelayUpdate: observed, DESIGN §8)"),
   (nm! "gcc.delayController.onUpdateCallback", .trusted "set in the constructor of SendSideBWE before the pipeline goroutines see traffic"),
   (nm! "cc.Acknowledgment.", .trusted "plain value record; instances are copied out of the history under the adapter lock"),
   (nm! "cc.InterceptorFactory.addPeerConnection", .trusted "set-up time callback setter"),
